@@ -208,6 +208,19 @@ func classify(v ssa.Value, set map[string]bool, seen map[ssa.Value]bool, depth i
 			set["index("+k+")"] = true
 		}
 	case *ssa.Field:
+		if isFreshStruct(x.X.Type()) {
+			if fromParam(x.X, 0) {
+				// a bundle of parameters: its field stands where the parameter stood
+				set["param:"+shortType(x.Type())] = true
+				return
+			}
+			if srcs := structFieldSources(x.X, x.Field, 0, map[ssa.Value]bool{}); len(srcs) > 0 {
+				for _, v := range srcs {
+					classify(v, set, seen, depth+1)
+				}
+				return
+			}
+		}
 		if f := FieldOf(x); f != nil {
 			set["field:"+shortType(x.X.Type())+"."+N(f)] = true
 		}
@@ -224,6 +237,18 @@ func classify(v ssa.Value, set map[string]bool, seen map[ssa.Value]bool, depth i
 		}
 		switch a := x.X.(type) {
 		case *ssa.FieldAddr:
+			if isFreshStruct(a.X.Type()) {
+				if fromParam(a.X, 0) {
+					set["param:"+shortType(x.Type())] = true
+					return
+				}
+				if srcs := structFieldSources(a.X, a.Field, 0, map[ssa.Value]bool{}); len(srcs) > 0 {
+					for _, v := range srcs {
+						classify(v, set, seen, depth+1)
+					}
+					return
+				}
+			}
 			if f := FieldOf(a); f != nil {
 				set["field:"+shortType(a.X.Type())+"."+N(f)] = true
 			}
@@ -270,6 +295,25 @@ func callClasses(c *ssa.Call, idx int, depth int) []string {
 	own := []string{callClass(c)}
 	f := c.Call.StaticCallee()
 	if f == nil || f.Blocks == nil || f.Pkg == nil || !strings.HasPrefix(f.Pkg.Pkg.Path(), ModPath) || depth > 30 {
+		return own
+	}
+	// a function the pinned tree does not have (a phase split off a pinned function, an extracted helper): its result
+	// is whatever its exits return
+	if isFreshFn(f) {
+		set := map[string]bool{}
+		for _, ret := range Returns(f) {
+			if idx < len(ret.Results) {
+				classify(RetVal(ret, idx), set, map[ssa.Value]bool{}, depth+8)
+			}
+		}
+		if len(set) > 0 {
+			var out []string
+			for k := range set {
+				out = append(out, k)
+			}
+			sort.Strings(out)
+			return out
+		}
 		return own
 	}
 	inner := map[string]bool{}
@@ -406,6 +450,14 @@ var (
 	freshCalls = map[*ssa.Function][]ssa.CallInstruction{} // static call sites of fresh functions (alias.go)
 )
 
+var freshFns = map[*ssa.Function]bool{}
+
+func isFreshFn(fn *ssa.Function) bool {
+	freshMu.RLock()
+	defer freshMu.RUnlock()
+	return freshFns[fn]
+}
+
 func freshSites(fn *ssa.Function) []ssa.CallInstruction {
 	if fn == nil {
 		return nil
@@ -413,4 +465,136 @@ func freshSites(fn *ssa.Function) []ssa.CallInstruction {
 	freshMu.RLock()
 	defer freshMu.RUnlock()
 	return freshCalls[fn]
+}
+
+// Fresh struct types (types the pinned inventory does not know: a bundle of parameters, the state handed from one phase
+// of a split function to the next) are transparent to provenance: a field read from such a struct has the provenance of
+// what was stored into that field where the struct was built.
+var (
+	freshTypes = map[*types.TypeName]bool{}
+	allCalls   = map[*ssa.Function][]ssa.CallInstruction{} // static call sites of every library function
+)
+
+func isFreshStruct(t types.Type) bool {
+	if p, ok := t.Underlying().(*types.Pointer); ok {
+		t = p.Elem()
+	}
+	n, ok := t.(*types.Named)
+	if !ok {
+		return false
+	}
+	if _, isStruct := n.Underlying().(*types.Struct); !isStruct {
+		return false
+	}
+	freshMu.RLock()
+	defer freshMu.RUnlock()
+	return freshTypes[n.Obj()]
+}
+
+// structFieldSources: the values stored into field `field` of the struct (or pointer to struct) value base, followed
+// through local cells, whole-struct copies, parameters (to the arguments of every static call site) and results of
+// library calls. Empty when the construction site cannot be found.
+func structFieldSources(base ssa.Value, field int, depth int, seen map[ssa.Value]bool) []ssa.Value {
+	if base == nil || seen[base] || depth > 8 {
+		return nil
+	}
+	seen[base] = true
+	var out []ssa.Value
+	fromCell := func(cell ssa.Value) {
+		refs := cell.Referrers()
+		if refs == nil {
+			return
+		}
+		for _, ref := range *refs {
+			switch r := ref.(type) {
+			case *ssa.FieldAddr:
+				if r.Field != field || r.Referrers() == nil {
+					continue
+				}
+				for _, rr := range *r.Referrers() {
+					if st, ok := rr.(*ssa.Store); ok && st.Addr == ssa.Value(r) {
+						out = append(out, st.Val)
+					}
+				}
+			case *ssa.Store:
+				if r.Addr == cell { // whole-struct copy into the cell
+					out = append(out, structFieldSources(r.Val, field, depth+1, seen)...)
+				}
+			}
+		}
+	}
+	switch x := base.(type) {
+	case *ssa.Alloc:
+		fromCell(x)
+	case *ssa.UnOp:
+		if x.Op == token.MUL {
+			if al, ok := x.X.(*ssa.Alloc); ok {
+				fromCell(al)
+			} else {
+				out = append(out, structFieldSources(x.X, field, depth+1, seen)...)
+			}
+		}
+	case *ssa.Phi:
+		for _, e := range x.Edges {
+			out = append(out, structFieldSources(e, field, depth+1, seen)...)
+		}
+	case *ssa.Parameter:
+		idx := -1
+		for i, p := range x.Parent().Params {
+			if p == x {
+				idx = i
+			}
+		}
+		freshMu.RLock()
+		sites := allCalls[x.Parent()]
+		freshMu.RUnlock()
+		for _, site := range sites {
+			if idx >= 0 && idx < len(site.Common().Args) {
+				out = append(out, structFieldSources(site.Common().Args[idx], field, depth+1, seen)...)
+			}
+		}
+	case *ssa.Call:
+		if f := x.Call.StaticCallee(); f != nil && f.Blocks != nil {
+			for _, ret := range Returns(f) {
+				if len(ret.Results) == 1 {
+					out = append(out, structFieldSources(RetVal(ret, 0), field, depth+1, seen)...)
+				}
+			}
+		}
+	case *ssa.Extract:
+		if call, ok := x.Tuple.(*ssa.Call); ok {
+			if f := call.Call.StaticCallee(); f != nil && f.Blocks != nil {
+				for _, ret := range Returns(f) {
+					if x.Index < len(ret.Results) {
+						out = append(out, structFieldSources(RetVal(ret, x.Index), field, depth+1, seen)...)
+					}
+				}
+			}
+		}
+	case *ssa.MakeInterface:
+		out = append(out, structFieldSources(x.X, field, depth+1, seen)...)
+	}
+	return out
+}
+
+// fromParam: the struct value (or cell) is a parameter of its function, or a local copy of one.
+func fromParam(v ssa.Value, depth int) bool {
+	if depth > 4 {
+		return false
+	}
+	switch x := v.(type) {
+	case *ssa.Parameter:
+		return true
+	case *ssa.UnOp:
+		if x.Op == token.MUL {
+			return fromParam(x.X, depth+1)
+		}
+	case *ssa.Alloc:
+		for _, st := range StoresTo(x) {
+			if fromParam(st.Val, depth+1) {
+				return true
+			}
+		}
+	}
+	return false
 }
